@@ -1,9 +1,9 @@
 #!/bin/sh
-# usage: verify_seeds.sh C01 C02 ...   verifies /tmp/wt/<id>/_seed/{A,B}: demo PASS clean, FAIL patched, suite unchanged
+# usage: [VARIANTS='C D'] verify_seeds.sh C01 S02 ...   verifies /tmp/wt/<id>/_seed/{A,B}: demo PASS clean, FAIL patched, suite unchanged
 BASE_FAIL="$(cat /verif/tools/baseline_failed.txt)"
 for id in "$@"; do
   wt=/tmp/wt/$id
-  for v in A B; do
+  for v in ${VARIANTS:-A B}; do
     d=$wt/_seed/$v
     [ -f $d/patch.diff ] || { echo "$id/$v: no patch"; continue; }
     cd $wt && git checkout -q -- . 
